@@ -319,7 +319,7 @@ def observe(rs, plan, rng, rich=True, fold=False, nsv=4, nq=6):
     case['queries'] = queries_of(circ, rs, rng, nq) if rich else []
     # defaults for the parameter part
     case.update(v2=[], u_exp=DUMMY, sv_exp=[], params_untouched=case['params0'], params_set=[], opp_set=[[] for _ in ops], u_set=DUMMY,
-                getp=[], setp=[], v3=[], u_setp=DUMMY, frz={'i': -1, 'nparams': 0, 'params': [], 'u': DUMMY, 'it': []})
+                getp=[], setp=[], v3=[], u_setp=DUMMY, chk3=False, frz={'i': -1, 'nparams': 0, 'params': [], 'u': DUMMY, 'it': []})
     if N == 0 or len(leaf_params(ops)) != N:
         return case
     v2 = new_vector(rng, ops)
@@ -345,7 +345,8 @@ def observe(rs, plan, rng, rich=True, fold=False, nsv=4, nq=6):
         setp.append({'i': i, 'x': x, 'after': qints(circ.params)})
     case['setp'] = setp
     case['v3'] = cur
-    case['u_setp'] = tab(circ.get_unitary().numpy) if setp else tab(circ.get_unitary().numpy)
+    case['chk3'] = bool(rich)
+    case['u_setp'] = tab(circ.get_unitary().numpy) if rich else DUMMY
     if rich:
         i = rng.randrange(N)
         c2 = circ.copy()
@@ -446,7 +447,7 @@ def random_item(rng, rs, depth=0):
 
 def random_plans(ctx, rng):
     out = []
-    n_small, n_big = (260, 10) if ctx.quick else (3000, 120)
+    n_small, n_big = (160, 6) if ctx.quick else (3000, 120)
     for i in range(n_small + n_big):
         big = i >= n_small
         while True:
@@ -455,9 +456,9 @@ def random_plans(ctx, rng):
             dim = int(np.prod(rs))
             if (big and 512 <= dim <= 4096) or (not big and dim <= 256):
                 break
-        nops = rng.randint(5, 40) if not big else rng.randint(8, 25)
+        nops = rng.randint(5, 40) if not big else rng.randint(8, 20)
         plan = [random_item(rng, rs) for _ in range(nops)]
-        out.append((tuple(rs), plan, rng.random() < 0.3))
+        out.append((tuple(rs), plan, rng.random() < 0.3, not big))
     return out
 
 
@@ -478,8 +479,8 @@ def build_cases(ctx):
     plans, counts, sampled = enumerate_small(ctx, rng)
     for rs, plan in plans:
         recipes.append({'rs': list(rs), 'plan': plan, 'seed': rng.randrange(1 << 30), 'fold': False, 'source': 'enumerated'})
-    for rs, plan, fold in random_plans(ctx, rng):
-        recipes.append({'rs': list(rs), 'plan': plan, 'seed': rng.randrange(1 << 30), 'fold': fold, 'source': 'random'})
+    for rs, plan, fold, rich in random_plans(ctx, rng):
+        recipes.append({'rs': list(rs), 'plan': plan, 'seed': rng.randrange(1 << 30), 'fold': fold, 'source': 'random', 'rich': rich})
     # expensive recipes first so that the worker processes finish together
     order = sorted(range(len(recipes)), key=lambda i: -int(np.prod(recipes[i]['rs'])) * (len(recipes[i]['plan']) + 1))
     built = exact.pmap(rebuild, [recipes[i] for i in order], procs=8, chunksize=8)
@@ -491,7 +492,7 @@ def build_cases(ctx):
 
 def rebuild(recipe):
     small = recipe['source'] == 'enumerated'
-    c = observe(tuple(recipe['rs']), recipe['plan'], random.Random(recipe['seed']), rich=True, fold=recipe['fold'],
+    c = observe(tuple(recipe['rs']), recipe['plan'], random.Random(recipe['seed']), rich=recipe.get('rich', True), fold=recipe['fold'],
                 nsv=3 if small else 6, nq=4 if small else 8)
     c['source'] = recipe['source']
     return c
@@ -514,10 +515,15 @@ def run(ctx: Ctx) -> Outcome:
     warnings.filterwarnings('ignore')
     out = Outcome('C06')
     laws = {}
+    timing = {}
+    import time
+    t0 = time.time()
 
     def laws_pass():
+        tl = time.time()
         for cfg in (['MonoLawsCircuit.cfg', 'MonoLawsCircuit3.cfg'] if ctx.quick else ['MonoLawsCircuitT.cfg', 'MonoLawsCircuit3.cfg']):
             laws[cfg] = common.tlc(LAWS, os.path.join(common.SPECS, 'exact', cfg), coverage=True, scratch=ctx.scratch, timeout=2400, workers=6)
+        timing['laws_s'] = round(time.time() - tl, 1)
     th = None
     counts, sampled = {}, False
     if ctx.replay:
@@ -527,7 +533,10 @@ def run(ctx: Ctx) -> Outcome:
         th = threading.Thread(target=laws_pass)
         th.start()
         cases, recipes, counts, sampled = build_cases(ctx)
+    timing['observe_s'] = round(time.time() - t0, 1)
+    t1 = time.time()
     verdicts, states, trans, _ = exact.par_validate(SPEC, CFG, cases, ctx.scratch, groups=8, chunk=1500)
+    timing['validate_s'] = round(time.time() - t1, 1)
     for idx, _step, clause, _ in verdicts:
         c = cases[idx]
         small = {'r': c['r'], 'ops': c['ops'], 'source': c.get('source')}
@@ -570,7 +579,7 @@ def run(ctx: Ctx) -> Outcome:
         'nested_or_folded': sum(1 for c in cases if any(o['g'] == 'BLOCK' for o in c['ops'])),
         'max_dim': max(int(np.prod(c['r'])) for c in cases),
         'queries': sum(len(c['queries']) for c in cases),
-        'algebra_model_checking': laws_cov,
+        'algebra_model_checking': laws_cov, 'timing': timing,
         'samples': [{k: c[k] for k in ('r', 'ops', 'u', 'v2', 'params0', 'locs', 'it')} for c in (cases[40 % len(cases)], cases[-1])],
         'checker_cmd': 'tlc -config specs/exact/CircuitSem.cfg specs/exact/CircuitSem.tla (batch, TRACE_FILE=cases.json); '
                        'tlc -config specs/exact/CircuitGen.cfg specs/exact/CircuitGen.tla; '
